@@ -416,3 +416,140 @@ func H_C03_resolveDisable(n int, mapMode int) {
 		}
 	}
 }
+
+// ---- C15 on whole programs compiled from text ----
+
+var c15RealTypes = []string{
+	"int", "float", "string", "bam", "sam", "bam[]", "sam[]", "map<bam>", "map<sam>",
+	"map<bam[]>", "map<bam>[]", "bam[][]", "int[]", "map<int>", "ST", "ST[]", "map<sam[]>",
+}
+
+func c15RealProgram(t string, structDef string) string {
+	return `filetype bam;
+filetype sam;
+
+` + structDef + `
+
+stage MAKE(
+    in  int n,
+    out ` + t + ` o,
+    src comp "bin",
+)
+
+stage USE(
+    in  ` + t + ` x,
+    out int r,
+    src comp "bin",
+)
+
+pipeline P(
+    in  int n,
+    out int r,
+)
+{
+    call MAKE(
+        n = self.n,
+    )
+
+    call USE(
+        x = MAKE.o,
+    )
+
+    return (
+        r = USE.r,
+    )
+}
+
+call P(
+    n = 1,
+)
+`
+}
+
+const c15StructDef = `struct ST(
+    int a,
+    bam f,
+)`
+
+func c15Compile(src string) *Ast {
+	var parser Parser
+	_, _, ast, err := parser.ParseSourceBytes([]byte(src), "/m/c15.mro", nil, false)
+	if err != nil {
+		panic("fixture does not compile: " + err.Error())
+	}
+	return ast
+}
+
+func c15NormaliseFileTypes(t string) string {
+	out := ""
+	for i := 0; i < len(t); i++ {
+		if i+3 <= len(t) && t[i:i+3] == "sam" {
+			out += "bam"
+			i += 2
+		} else {
+			out += t[i : i+1]
+		}
+	}
+	return out
+}
+
+// H_C15_realTypes(i, j): the original invocation passes a value of type i from
+// MAKE to USE, the new one a value of type j (both programs compile); what
+// mrp compares on re-attach is Ast.EquivalentCall.
+//
+//	C15: re-attach is accepted exactly when the two types are the same up to
+//	     the names of file types (bam / sam), in whatever collection they sit;
+//	     any other change of a parameter's type is refused.
+func H_C15_realTypes(i, j int) {
+	ti, tj := c15RealTypes[i], c15RealTypes[j]
+	oldAst := c15Compile(c15RealProgram(ti, c15StructDef))
+	newAst := c15Compile(c15RealProgram(tj, c15StructDef))
+	got := newAst.EquivalentCall(oldAst)
+	want := c15NormaliseFileTypes(ti) == c15NormaliseFileTypes(tj)
+	verifCover("real programs compared")
+	if want {
+		verifCover("types equal up to file type names")
+		verifAssert(got, "C15: re-attach succeeds when the invocation differs only in file-type names (also inside arrays and typed maps)")
+	} else {
+		verifAssert(!got, "C15: re-attach is refused when a parameter's type changed")
+	}
+	verifAssert(oldAst.EquivalentCall(newAst) == got, "C15: the comparison is symmetric")
+}
+
+var c15StructVariants = []struct {
+	def  string
+	same bool
+}{
+	{"struct ST(\n    int a,\n    bam f,\n)", true},
+	{"struct ST(\n    bam f,\n    int a,\n)", true},  // member order
+	{"struct ST(\n    int a,\n    sam f,\n)", true},  // file type name
+	{"struct ST(\n    int a,\n    bam f,\n    int extra,\n)", false},
+	{"struct ST(\n    float[] a,\n    bam f,\n)", false},
+	{"struct ST(\n    int b,\n    bam f,\n)", false},
+	{"struct ST(\n    int a,\n    bam[] f,\n)", false},
+	{"struct ST(\n    int a,\n    string f,\n)", false},
+}
+
+// H_C15_structDefs(v, arr): the struct type ST passed from MAKE to USE (as ST
+// or ST[]) keeps its name but its definition is variant v in the new
+// invocation.
+//
+//	C15: re-attach is refused when a member was added, removed, renamed or
+//	     changed its type; accepted when only the member order or a file-type
+//	     name changed.
+func H_C15_structDefs(v, arr int) {
+	t := "ST"
+	if arr != 0 {
+		t = "ST[]"
+	}
+	oldAst := c15Compile(c15RealProgram(t, c15StructVariants[0].def))
+	newAst := c15Compile(c15RealProgram(t, c15StructVariants[v].def))
+	got := newAst.EquivalentCall(oldAst)
+	verifCover("struct definitions compared")
+	if c15StructVariants[v].same {
+		verifAssert(got, "C15: re-attach succeeds when a struct's definition differs only in member order or file-type names")
+	} else {
+		verifAssert(!got, "C15: re-attach is refused when the definition of a struct type that is passed between calls changed (parameter sets and types)")
+	}
+	verifAssert(oldAst.EquivalentCall(newAst) == got, "C15: the comparison is symmetric")
+}
